@@ -10,6 +10,7 @@ import traceback
 import z3
 
 SOLVER_TIMEOUT_MS = int(os.environ.get("CGV_SOLVER_TIMEOUT_MS", "120000"))
+z3.set_param("memory_max_size", int(os.environ.get("CGV_Z3_MEM_MB", "3000")))  # a runaway query raises instead of being OOM-killed
 
 
 class HarnessError(Exception):
